@@ -89,17 +89,17 @@ pub fn instances() -> Vec<Inst> {
     for t in ["\"abc\"", "\"a\\\"b\"", "'a b'", "\"stdgates.inc\"", "\"é😀\"", "\"012\"", "'a\\'b'", "'\\''", "\"a\\\\\"", "'a\\\\'", "'\"'", "\"'\""] {
         v.push(inst(t, "STRING"));
     }
-    for t in ["/* c */", "/* /* n */ */", "/**/", "/* \n */"] {
+    for t in ["/* c */", "/* /* n */ */", "/**/", "/* \n */", "/** doc **/", "/***/", "/****/", "/* x ***/", "/*********/", "/* a **/"] {
         v.push(Inst { text: t.into(), expect: vec![], line: false, header: false });
     }
     v.push(Inst { text: "// c".into(), expect: vec![], line: true, header: false });
     v.push(Inst { text: "//".into(), expect: vec![], line: true, header: false });
     v.push(Inst { text: "// é√ 変".into(), expect: vec![], line: true, header: false });
     v.push(Inst { text: "/* é√ */".into(), expect: vec![], line: false, header: false });
-    for t in ["pragma a b", "#pragma a b", "pragma\ta", "pragma é√ x"] {
+    for t in ["pragma a b", "#pragma a b", "pragma\ta", "pragma é√ x", "pragma Å х", "pragma ", "pragma   \t", "#pragma "] {
         v.push(Inst { text: t.into(), expect: vec![("PRAGMA".into(), t.into())], line: true, header: false });
     }
-    for t in ["@ann a b", "@a", "@é 1", "@ann é√変", "@QPU fast", "@X 1", "@IBM.layout 0 1", "@A_b c", "@Q1 on", "@_x", "@U"] {
+    for t in ["@ann a b", "@a", "@é 1", "@ann é√変", "@QPU fast", "@X 1", "@IBM.layout 0 1", "@A_b c", "@Q1 on", "@_x", "@U", "@ann ą\u{85}"] {
         v.push(Inst { text: t.into(), expect: vec![("ANNOTATION".into(), t.into())], line: true, header: false });
     }
     for t in ["OPENQASM 3.0", "OPENQASM 3", "OPENQASM  2.0", "OPENQASM\t3.1"] {
